@@ -334,6 +334,40 @@ def gen_cyclic_host_case(rng):
             'cycles': ['MA'], 'seed': rng.randrange(10 ** 6), 'start': [], 'ligands': [[f"MA#0-{host['resnames'][r - 1]}#{r}", 'LIG#1']]}
 
 
+def gen_inner_restraint_case(rng, d=0.5, tol=5.0, ab=None, seed=None):
+    """a distance restraint between two INNER residues of a chain of equal residues (the reference is not where the walk
+    starts); with d close to the stretched length of the segment many trial steps fail and the walk steps back over the
+    reference residue"""
+    mt = systems.gen_moltype(rng, 'MA', nres=14, shape='path', resnames=['RA'] * 14)
+    for a in mt['atoms']:
+        a['atype'], a['mass'] = mt['atoms'][0]['atype'], mt['atoms'][0]['mass']
+    a0 = rng.randint(3, 7) if ab is None else ab[0]
+    b0 = a0 + 3
+    box = [8.0, 8.0, 8.0]
+    lines = ['[ molecule ]', 'MA 0 1', '[ distance_restraints ]', f'{a0} {b0} {d} {tol}']
+    return {'moltypes': [mt], 'molecules': [('MA', 1)], 'box': box, 'build': '\n'.join(lines) + '\n',
+            'decl': [{'kind': 'dist', 'a': a0, 'b': b0, 'd': d, 'tol': tol, 'mols': [0, 1]}], 'cycles': [],
+            'seed': rng.randrange(10 ** 6) if seed is None else seed, 'start': [], 'inner': True}
+
+
+def inner_restraint_cases(ctx, n):
+    rng = ctx.rng
+    probe = gen_inner_restraint_case(rng)
+    rec = run_build_case(probe, timeout=30)
+    if not rec['ok'] or 'avg' not in rec:
+        ctx.note(f"inner-restraint probe did not finish: {rec.get('exc')}")
+        return
+    d = round(2.98 * rec['avg'], 4)
+    for _ in range(n):
+        case = gen_inner_restraint_case(rng, d=d, tol=0.003)
+        case['moltypes'] = probe['moltypes']
+        r = run_build_case(case, timeout=30)
+        ctx.case(('inner_restraint', case['build'], case['seed']), nontrivial=r['ok'], sample={'build': case['build']})
+        ctx.feature('e2e_near_stretched_restraint_between_inner_residues_' + ('ok' if r['ok'] else 'failed'))
+        for b in r['bad'][:1]:
+            ctx.violation('spec', f"C07 fails on the implementation: {b}", {'case': case, 'failure': b})
+
+
 def gen_build_case(rng, ring_with_restraint=False, rw_nonunit=False):
     mts = [systems.gen_moltype(rng, 'MA', nres=rng.randint(5, 9) if ring_with_restraint else rng.randint(3, 7),
                                shape='ring' if ring_with_restraint else rng.choice(['path', 'path', 'tree', 'ring']))]
@@ -486,6 +520,7 @@ def run_build_case(case, timeout=60):
                     edges = list(mol.search_tree.edges)
                     avg = sum(eng.get_interaction(mol_idx, mol_idx, a, b)[0] for a, b in edges) / len(edges)
                     rec['selected'] += 1
+                    rec.setdefault('avg', float(avg))
                     if not (d['d'] - d['tol'] - 1e-7 <= dist <= d['d'] + d['tol'] + avg + 1e-7):
                         rec['bad'].append(f"distance restraint {d['a']}-{d['b']} of molecule {mol_idx}: distance {dist:.4f} outside "
                                           f"[{d['d'] - d['tol']:.4f}, {d['d'] + d['tol'] + avg:.4f}]")
@@ -579,6 +614,7 @@ def run(ctx):
         ctx.broken.append('correspondence:C07 model evaluation failed')
     milestone_cases(ctx, ctx.n(300, 3000))
     persistence_cases(ctx, ctx.n(10, 50))
+    inner_restraint_cases(ctx, ctx.n(8, 40))
     ring_cases(ctx)
     bcases = [c for _, c in core.corpus_cases('C07')]
     # a molecule declared cyclic that also carries a build-file distance restraint: always exercised
